@@ -84,6 +84,8 @@ var c13Places = []struct{ id, cwd, path string }{
 	{"sibling-dotdot", "outdir", "../p/setup.go"},
 	{"sibling-absolute", "outdir", "<abs>"},
 	{"deep-dotdot", "p/sub/deep", "../../setup.go"},
+	// a working directory OUTSIDE the module: the go command must still be run where the setup file lives
+	{"outside-module-absolute", "/", "<abs>"},
 }
 
 type c13Obs struct {
@@ -142,7 +144,11 @@ func (e *Env) c13Run(base, tag string, in int, env c13Env, countFile string) c13
 		tmpDir = c13OtherDeviceTmp // a directory on ANOTHER file system than the tree (rename across devices fails)
 	}
 	extra = append(extra, "HOME="+filepath.Join(root, []string{"home1", "home2"}[env.Home]), "TMPDIR="+tmpDir)
-	res := e.Runner.Run(filepath.Join(root, pl.cwd), args, extra...)
+	cwd := filepath.Join(root, pl.cwd)
+	if filepath.IsAbs(pl.cwd) {
+		cwd = pl.cwd
+	}
+	res := e.Runner.Run(cwd, args, extra...)
 	ob := c13Obs{Exit: res.Exit, Stdout: res.Stdout, Crashed: res.Crashed() || res.TimedOut}
 	// a message that echoes the path as given legitimately follows the spelling: one token for every spelling
 	se := strings.ReplaceAll(res.Stderr, abs, "<input>")
@@ -227,7 +233,7 @@ func init() {
 		}
 		e.Rep.Rule("14 inputs chosen for import-table and marker exposure (blank+alias imports with clashing package names, :conv pkg.F, imported hook, 2 and 3 converter interfaces, a rejected input, no-match warnings) x " +
 			"environment: marker shape (9, via the nanoid seam) x map-iteration order (every permutation of every executed range-over-map loop for <= 4 keys, one deviation at a time; two deviations in thorough; via the verifseam rewrite) complete, " +
-			"and cwd/path spelling (10 places) x GOFILE vs argument x HOME x TMPDIR (incl. one on another file system than the tree) x prior content of the output path {none, longer stale file} x GOPACKAGE {unset, another package's name, the setup package's name} within 2 deviations of the base environment, plus the complete product prior output x GOPACKAGE x {package with, without an ordinary sibling file} x GOFILE; oracle O-diff: exit status, output bytes, stdout and stderr (scratch path spellings tokenised) identical to the base environment, and no memory address (0x…) anywhere in them; " +
+			"and cwd/path spelling (11 places, one of them outside the module) x GOFILE vs argument x HOME x TMPDIR (incl. one on another file system than the tree) x prior content of the output path {none, longer stale file} x GOPACKAGE {unset, another package's name, the setup package's name} within 2 deviations of the base environment, plus the complete product prior output x GOPACKAGE x {package with, without an ordinary sibling file} x GOFILE; oracle O-diff: exit status, output bytes, stdout and stderr (scratch path spellings tokenised) identical to the base environment, and no memory address (0x…) anywhere in them; " +
 			"non-trivial = environment differing from base in marker or map order on an input with >= 2 imports or >= 2 interfaces")
 		// a TMPDIR on another file system than the tree
 		if rootDev, ok := deviceOf(e.WS.Root); ok {
@@ -390,7 +396,15 @@ func init() {
 				}
 				if got.Out != want.Out && !(j.env.Prior == 1 && want.Exit != 0) {
 					// (a rejected run leaves a pre-existing file as it was: nothing to compare with the base, where there was none)
-					add("bytes", "output bytes differ from the base environment")
+					if c13Places[j.env.Place].id == "outside-module-absolute" && c13Inputs[j.in].id == "two-blank-same-base-name" &&
+						strings.Replace(want.Out, "\t\"example.com/m/ext/a/conv\"\n", "", 1) == got.Out {
+						// one cause, one key (whatever else deviates): the named import that the generated code needs is left to
+						// goimports, which only finds module packages when the process runs inside the module
+						fs = append(fs, report.Finding{Key: "C13|bytes|import-left-to-goimports|place=outside-module-absolute|input=two-blank-same-base-name", CellID: fmt.Sprintf("%s_%+v", c13Inputs[j.in].id, j.env),
+							What: "run from a working directory outside the module, the output lacks the import \"example.com/m/ext/a/conv\" that the run inside the module adds"})
+					} else {
+						add("bytes", "output bytes differ from the base environment")
+					}
 				}
 				if got.Stdout != want.Stdout {
 					add("stdout", "stdout differs")
